@@ -438,6 +438,11 @@ func (m *MdnsManager) copyMdnsEntries() map[string]*api.MdnsEntry {
 	m.mux.Lock()
 	defer m.mux.Unlock()
 
+	return m.copyMdnsEntriesLocked()
+}
+
+// mux has to be locked
+func (m *MdnsManager) copyMdnsEntriesLocked() map[string]*api.MdnsEntry {
 	mdnsEntries := make(map[string]*api.MdnsEntry)
 	for k, v := range m.entries {
 		newEntry := &api.MdnsEntry{}
@@ -623,10 +628,12 @@ func (m *MdnsManager) RequestMdnsEntries() {
 
 // copy the entries for a report and provide the sequence number of that report
 func (m *MdnsManager) copyMdnsEntriesForReport(newEntries bool) (map[string]*api.MdnsEntry, uint64) {
-	entries := m.copyMdnsEntries()
-
+	// the copy and its sequence number have to be taken in one step: a report requested by the hub and a
+	// report for a resolver event may be prepared at the same time, and the one with the higher number wins
 	m.mux.Lock()
 	defer m.mux.Unlock()
+
+	entries := m.copyMdnsEntriesLocked()
 
 	m.reportSequence++
 	if newEntries {
